@@ -9,7 +9,7 @@ structure Basic (env : Env) (R : World → World → Prop) : Prop where
   refl : ∀ w, R w w
   trans : ∀ {a b c}, R a b → R b c → R a c
   callDest : ∀ (w : World) (d : Nat) (m : Msg), R w (w.callDest env d m).1
-  stagePush : ∀ (w : World) (m : Msg), R w { w with stage := w.stage ++ [m] }
+  stagePush : ∀ (w : World) (m : Msg), R w { w with stage := w.stage ++ [m], stageAt := w.stageAt ++ [w.dests] }
   bufferSet : ∀ (w : World) (b : List Msg), R w { w with buffer := b }
   /-- ghost bookkeeping of `deliver`: the pending slot is consumed (and recorded with the buffered message) -/
   ghostSlot : ∀ (w : World) (l : Option (Nat × Nat)) (b : List (Msg × Option (Nat × Nat))), R w { w with lastSlot := l, bufferAt := b }
